@@ -1,4 +1,4 @@
-import Rivaas.Lemmas.OpenAPIDoc
+import Rivaas.Lemmas.OpenAPIEval
 /-
 C07 — property theorems (generated OpenAPI documents are valid, closed, complete and deterministic).
 -/
@@ -86,6 +86,92 @@ example :
          { method := s "GET", path := s "/user/:id", summary := [], description := [], opID := [], req := none, resps := [] }] with
      | .ok _ => false
      | .error e => e == .dupOp) = true := by decide
+
+/-! ### determinism: map iteration order (K07h) -/
+
+theorem lemma_setAssoc_keys_of_mem {β} (k : B) (v : β) : ∀ (l : List (B × β)), k ∈ l.map (·.1) →
+    (setAssoc k v l).map (·.1) = l.map (·.1)
+  | [], h => by simp at h
+  | (k', v') :: rest, h => by
+    simp only [setAssoc]
+    split
+    next hk => simp [hk]
+    next hk =>
+      simp only [List.map_cons, List.mem_cons] at h ⊢
+      rcases h with h | h
+      · exact absurd h.symm hk
+      · rw [lemma_setAssoc_keys_of_mem k v rest h]
+
+theorem lemma_lookup_none_not_mem {β} (k : B) : ∀ (l : List (B × β)), l.lookup k = none → k ∉ l.map (·.1)
+  | [], _ => by simp
+  | (k', v') :: rest, h => by
+    simp only [List.lookup] at h
+    split at h
+    · cases h
+    next hne =>
+      simp only [List.map_cons, List.mem_cons, not_or]
+      exact ⟨by simpa using hne, lemma_lookup_none_not_mem k rest h⟩
+
+theorem lemma_lookup_some_mem {β} (k : B) (v : β) : ∀ (l : List (B × β)), l.lookup k = some v → k ∈ l.map (·.1)
+  | [], h => by simp [List.lookup] at h
+  | (k', v') :: rest, h => by
+    simp only [List.lookup] at h
+    split at h
+    next heq => simp only [List.map_cons, List.mem_cons]; exact Or.inl (by simpa using heq)
+    next => simp only [List.map_cons, List.mem_cons]; exact Or.inr (lemma_lookup_some_mem k v rest h)
+
+/-- the `byPath` map has each converted path once (it is a Go map) -/
+theorem groupByPath_keys_nodup : ∀ ops : List OpIn, ((groupByPath ops).map (·.1)).Nodup
+  | [] => by simp [groupByPath]
+  | op :: rest => by
+    simp only [groupByPath]
+    split
+    next grp heq =>
+      rw [lemma_setAssoc_keys_of_mem _ _ _ (lemma_lookup_some_mem _ _ _ heq)]
+      exact groupByPath_keys_nodup rest
+    next heq =>
+      simp only [List.map_cons, List.nodup_cons]
+      exact ⟨lemma_lookup_none_not_mem _ _ heq, groupByPath_keys_nodup rest⟩
+
+/-- **deterministic (paths).** `Build` ranges over the Go map `byPath`. Whatever order the runtime
+    iterates it in — every permutation of its entries — the result (path items, component schemas,
+    error) is the same: the keys are visited in sorted order. -/
+theorem deterministic_path_order (env : Env) (g g' : List (B × List OpIn)) (hp : List.Perm g g')
+    (hk : (g.map (·.1)).Nodup) : buildFromGroups env g' = buildFromGroups env g := by
+  unfold buildFromGroups
+  rw [sortByKey_perm_invariant hp hk]
+
+/-- the hypothesis of `deterministic_path_order` is met by the map `Build` constructs, for all operations -/
+theorem deterministic (env : Env) (ops : List OpIn) (g' : List (B × List OpIn)) (hp : List.Perm (groupByPath ops) g') :
+    buildFromGroups env g' = build env ops :=
+  deterministic_path_order env _ _ hp (groupByPath_keys_nodup ops)
+
+/-- **deterministic (response codes).** `buildOperation` ranges over the Go map `doc.ResponseTypes`;
+    every iteration order gives the same operation, registry and error. -/
+theorem deterministic_status_order (env : Env) (op : OpIn) (resps' : List (Nat × B × Option Ty)) (st : Schemas)
+    (so : List B) (hp : List.Perm op.resps resps') (hk : (op.resps.map (·.1)).Nodup) :
+    buildOperation env { op with resps := resps' } st so = buildOperation env op st so := by
+  have hempty : resps'.isEmpty = op.resps.isEmpty := by
+    have := hp.length_eq
+    cases h1 : op.resps <;> cases h2 : resps' <;> simp_all
+  have hdoc : OpIn.hasDoc { op with resps := resps' } = op.hasDoc := by simp only [OpIn.hasDoc, hempty]
+  have hid : opIdOf { op with resps := resps' } = opIdOf op := by simp only [opIdOf, hdoc]
+  unfold buildOperation
+  simp only [hdoc, hid, sortStatuses_perm_invariant hp hk]
+
+/-- as shipped (before K07h) the paths were visited in map iteration order, and with two types that
+    share a component name the registry depends on that order: visiting `a/dup.I` then `b/dup.I`
+    registers a different `dup.I` than the other way round -/
+theorem asIs_iteration_order_witness :
+    (gen envW [] [] (.named 1) (gen envW [] [] (.named 0) []).2).2 ≠
+    (gen envW [] [] (.named 0) (gen envW [] [] (.named 1) []).2).2 := envW_order_matters
+
+/-- first writer wins (the mechanism behind the witness) -/
+theorem first_writer_wins {env : Env} {id : Nat} {n p : B} {fs : List Field} {st : Schemas}
+    (hl : env.lookup id = some (.struct n p fs)) (hn : schemaName n p ≠ [])
+    (hk : hasKey st (schemaName n p) = true) :
+    gen env [] [] (.named id) st = (refTo (schemaName n p), st) :=
+  gen_struct_known hl (by simp) hn hk
 
 /-- as shipped (before K07c) an instantiated generic type gives a key outside the pattern -/
 theorem schemaNameAsIs_witness :
